@@ -56,6 +56,7 @@ type Engine struct {
 	MaxVisits  int
 	NoMerge    bool
 	EagerFeas  bool
+	InjectiveUF string // name prefix of uninterpreted functions for which collision-free counterexamples are preferred
 	CrossEvery   int    // re-decide every n-th assertion query on CrossSolver (0 = off)
 	CrossSolver  string
 	CrossChecked int
